@@ -641,7 +641,7 @@ func (m *mon) opActivate() {
 	lic := m.L.lic[target.Bech]
 	variant := "self"
 	if lic != nil && r.Intn(100) < 30 || lic == nil && r.Intn(100) < 15 {
-		variant = []string{"impostor-signer", "impostor-key"}[r.Intn(2)]
+		variant = []string{"impostor-signer", "impostor-key", "impostor-behind-own-message"}[r.Intn(3)]
 	}
 	creatorStr := target.Bech
 	if lic != nil && lic.Key != target.Bech && variant == "self" && r.Intn(2) == 0 {
@@ -651,7 +651,7 @@ func (m *mon) opActivate() {
 	signer := target
 	md := world.Meta(target)
 	md.Creator = creatorStr
-	if variant == "impostor-signer" || variant == "impostor-key" {
+	if variant == "impostor-signer" || variant == "impostor-key" || variant == "impostor-behind-own-message" {
 		cands := append([]*chain.Account{}, m.w.Users...)
 		for _, k := range ak {
 			cands = append(cands, m.byAddr[k])
@@ -660,13 +660,13 @@ func (m *mon) opActivate() {
 		if signer.Bech == target.Bech {
 			signer = m.w.Users[0]
 		}
-		if variant == "impostor-signer" {
+		if variant == "impostor-signer" || variant == "impostor-behind-own-message" {
 			md.Signers = []string{signer.Bech} // creator = licensee, declared signer = the impostor
 		}
 	}
 	class, why := mustFail, ""
 	switch {
-	case variant == "impostor-signer" || variant == "impostor-key":
+	case variant == "impostor-signer" || variant == "impostor-key" || variant == "impostor-behind-own-message":
 		why = "impostor"
 	case m.L.act[target.Bech] != nil:
 		why = "already-activated"
@@ -682,7 +682,14 @@ func (m *mon) opActivate() {
 	}
 	op := m.logOp(map[string]any{"op": "activate", "target": target.Bech, "creator": creatorStr, "signer": signer.Bech, "variant": variant, "class": class, "why": why})
 	msg := &palomatypes.MsgRegisterLightNodeClient{Metadata: md}
-	res := m.c.Deliver(signer, msg)
+	var res chain.TxResult
+	if variant == "impostor-behind-own-message" {
+		// the forged activation travels behind a message the impostor signs in its own name, in one transaction
+		own := &palomatypes.MsgAddStatusUpdate{Status: "hello", Level: palomatypes.MsgAddStatusUpdate_LEVEL_INFO, Metadata: world.Meta(signer)}
+		res = m.c.Deliver(signer, own, msg)
+	} else {
+		res = m.c.Deliver(signer, msg)
+	}
 	accepted := res.OK()
 	op["result"] = ok(accepted)
 	if !accepted {
